@@ -965,7 +965,10 @@ int32 sslActivateWriteCipher(ssl_t *ssl)
 /*
         Copy the newly activated write keys into the live buffers
  */
-        Memcpy(ssl->sec.writeMAC, ssl->sec.wMACptr, ssl->enMacSize);
+        if (ssl->sec.wMACptr)
+        {
+            Memcpy(ssl->sec.writeMAC, ssl->sec.wMACptr, ssl->enMacSize);
+        }
         Memcpy(ssl->sec.writeKey, ssl->sec.wKeyptr, ssl->cipher->keySize);
         Memcpy(ssl->sec.writeIV, ssl->sec.wIVptr, ssl->cipher->ivSize);
 # ifdef DEBUG_TLS_MAC
